@@ -57,6 +57,11 @@ def main() -> int:
             aud = C.audit(pid, work)
             for b in aud["bad"]:
                 broken.append("audit: " + b)
+            if tier == "thorough" and not a.replay:
+                ok_l, log_l, n_l = C.leancheck(pid)
+                ctx.notes.append(f"leanchecker re-checked {n_l} compiled modules (Props.{pid} and everything of this library it imports): {'ok' if ok_l else 'FAILED'}")
+                if not ok_l:
+                    broken.append("leanchecker rejects a compiled module: " + log_l)
         else:
             names, ex = C.registry(pid)
             aud = dict(names=names, examples=ex, axioms={}, bad=["build failed"])
